@@ -156,6 +156,9 @@ def move_staticmethod_static_scope(source: str, preserve: Collection[str]) -> st
                 continue
             if not set(_decorators_of_type(funcdef, "staticmethod")):
                 continue
+            # The class body may refer to the method by its name alone
+            if any(core.walk(classdef, ast.Name(id=funcdef.name))):
+                continue
             new_name = funcdef.name
             if not parsing.is_private(new_name):
                 new_name = f"_{new_name}"
